@@ -4,6 +4,7 @@ import (
 	"fmt"
 	"go/types"
 	"math/bits"
+	"regexp"
 
 	"golang.org/x/tools/go/ssa"
 )
@@ -37,6 +38,7 @@ func init() {
 		"verifParam":       vParam,
 		"verifFreeze":      vFreeze,
 		"verifDeepEqual":   vDeepEqual,
+		"verifDeepEqualExcept": vDeepEqualExcept,
 		"verifPreemptBound": func(it *Interp, fr *frame, fn *ssa.Function, a []Value, site ssa.Instruction) Value {
 			it.sched.preemptBound = int(a[0].(*Term).k)
 			return nil
@@ -317,6 +319,19 @@ func vDeepEqual(it *Interp, fr *frame, fn *ssa.Function, args []Value, site ssa.
 	return it.deepEq(fr, a.v, b.v, a.t, 0)
 }
 
+// verifDeepEqualExcept(a, b, skip): as verifDeepEqual, ignoring struct fields
+// whose name matches the regular expression skip.
+func vDeepEqualExcept(it *Interp, fr *frame, fn *ssa.Function, args []Value, site ssa.Instruction) Value {
+	re, err := regexp.Compile(concStr(it, args[2]))
+	if err != nil {
+		it.unsupported("verifDeepEqualExcept: bad regexp")
+	}
+	saved := it.deqSkip
+	it.deqSkip = re
+	defer func() { it.deqSkip = saved }()
+	return vDeepEqual(it, fr, fn, args[:2], site)
+}
+
 func (it *Interp) deepEq(fr *frame, a, b Value, t types.Type, depth int) *Term {
 	tt := it.tt
 	if depth > 8 {
@@ -383,6 +398,9 @@ func (it *Interp) deepEq(fr *frame, a, b Value, t types.Type, depth int) *Term {
 			}
 			if nt, ok := f.Type().(*types.Named); ok && nt.Obj().Name() == "BaseLayer" {
 				continue // raw contents/payload windows are compared separately
+			}
+			if it.deqSkip != nil && it.deqSkip.MatchString(f.Name()) {
+				continue
 			}
 			r = tt.BAnd(r, it.deepEq(fr, sa.f[i], sb.f[i], f.Type(), depth+1))
 		}
